@@ -53,6 +53,20 @@ Proof. reflexivity. Qed.
 Lemma K_lk_multi_has_p n : lk_multi_has_p n = (1 <? n).
 Proof. unfold lk_multi_has_p. apply Z.gtb_ltb. Qed.
 
+Lemma K_lk_any_unst b : lk_any_unst b = b.
+Proof. reflexivity. Qed.
+Lemma K_lk_if_unst b : lk_if_unst_val b = b /\ lk_if_unst_ns b = b /\ lk_if_unst_p b = b.
+Proof. repeat split. Qed.
+Lemma K_lk_unst_nifs : lk_unst_nifs = 5.
+Proof. reflexivity. Qed.
+Lemma K_lk_sobg_bkgdep fid keys : lk_sobg_bkgdep fid keys = existsb (Z.eqb fid) keys.
+Proof. reflexivity. Qed.
+Lemma K_lk_sobg_cases sd bd :
+  lk_sobg_case1 sd bd = negb sd && negb bd /\ lk_sobg_case2 sd bd = sd && negb bd /\ lk_sobg_case4 sd bd = sd && bd.
+Proof. repeat split. Qed.
+Lemma K_lk_sobg_nbroadcast : lk_sobg_nbroadcast = 2.
+Proof. reflexivity. Qed.
+
 Lemma combine_app {A B} (a1 a2 : list A) (b1 b2 : list B) :
   length a1 = length b1 -> combine (a1 ++ a2) (b1 ++ b2) = combine a1 b1 ++ combine a2 b2.
 Proof.
